@@ -211,6 +211,22 @@ X3 = [-1e120, -1e-120, -1e-200, 0.0, 1e-200, 1e-120, 1e120, INF]
 X3W = [-1e120, -1.0, -1e-120, -1e-200, 0.0, 1e-200, 1e-120, 1.0, 1e120, INF]
 XEXT = sorted(set(x for x in X2W if x not in (0.0, 1.0, -1.0, INF)))  # extreme letters added to the point lattices
 ALPHABETS = {"A8": A8, "A10": A10, "A14": A14, "X2": X2, "X2W": X2W, "X3": X3, "X3W": X3W}
+
+
+def _with_edges(al, minus_inf=True):
+    """The letters of the sub-check `degenerate`: -inf in front (a legal LOWER end of a rectangle of (-inf, inf]^d, and a
+    point where a side may collapse) and -0.0 just before 0.0 (the side (-0.0, 0.0] is empty: its ends are equal)."""
+    out = [-INF] if minus_inf else []
+    for x in al:
+        out += [-0.0, 0.0] if x == 0 else [x]
+    return out
+
+
+ALPHABETS.update({
+    "E2": _with_edges(A8), "E3": [-INF, -1.0, -0.0, 0.0, 0.2, 5.0, INF], "E3S": [-INF, -1.0, 0.0, 0.2, INF],
+    "EX2": _with_edges(X2), "EX3": [-1e120, -1e-200, 0.0, 1e-200, 1e120, INF],
+    "E2W": _with_edges(A14), "EX2W": _with_edges(X2W), "E3W": _with_edges(A8), "EX3W": _with_edges(X3),
+})
 XLAT = [-INF, -1e300, -1e100, -1e3, -25.0, -5.0, -1.0, -0.2, -0.04, -1e-3, -1e-100, -1e-300, 0.0,
         1e-300, 1e-100, 1e-3, 0.04, 0.2, 1.0, 5.0, 25.0, 1e3, 1e100, 1e300, INF]
 ULAT = sorted([k / 16.0 for k in range(1, 16)] + [1e-6, 1e-3, 1 - 1e-3, 1 - 1e-6])
@@ -335,6 +351,30 @@ def cases(tier):
         for d in (2, 3):
             out.append({"sub": "xderiv", "copula": c, "dim": d,
                         "mags": [0.04, 0.2, 1.0, 5.0, 25.0] if thorough else [0.2, 1.0, 5.0]})
+    # degenerate rectangles (a_i == b_i on one, two or all axes: empty, volume 0) and rectangles with a lower end -inf
+    for c in cops:
+        for name2 in (["E2W", "EX2W"] if thorough else ["E2", "EX2"]):
+            out.append({"sub": "degenerate", "copula": c, "dim": 2, "alphabet": name2, "first": None,
+                        "margin_options": name2.startswith("E2")})
+    for c in cops:
+        if "via" in c:
+            names3 = ["E3"] if thorough else ["E3S"]
+        else:
+            names3 = ["E3W", "EX3W"] if thorough else ["E3", "EX3"]
+        for name3 in names3:
+            al = _letters(name3, c)
+            if len(al) < 4:
+                continue
+            if "via" in c and not thorough:
+                out.append({"sub": "degenerate", "copula": c, "dim": 3, "alphabet": name3, "first": None})
+                continue
+            sides = _sides(al)
+            k_opt = min(k for k, (i, j) in enumerate(sides) if i == j and math.isfinite(al[i]))
+            for k in range(len(sides)):
+                case = {"sub": "degenerate", "copula": c, "dim": 3, "alphabet": name3, "first": k}
+                if k == k_opt and name3 in ("E3", "E3W"):
+                    case["margin_options"] = True
+                out.append(case)
     for c in cops:
         for ij in ([0, 1], [0, 2], [1, 2], [1, 0], [2, 0], [2, 1]) if (thorough or "via" not in c) else ([0, 1], [2, 0]):
             out.append({"sub": "margin2", "copula": c, "pair": ij, "alphabet": "A10" if thorough else "A8"})
@@ -767,6 +807,111 @@ def _sub_volume(sh, case):
                    "smallest volume / sum|terms|": minrel})
 
 
+def _sides(al):
+    """All sides (a, b] with a <= b of the ascending letter list, as index pairs; (i, i) and (-0.0, 0.0) are collapsed."""
+    return [(i, k) for i in range(len(al)) for k in range(i, len(al))]
+
+
+def _collapse_class(a, b):
+    n = sum(1 for x, y in zip(a, b) if x == y)
+    where = set()
+    for x, y in zip(a, b):
+        if x == y:
+            if x == 0:
+                where.add("at-0" if math.copysign(1.0, x) == math.copysign(1.0, y) else "at-the-pair-minus0-plus0")
+            elif math.isinf(x):
+                where.add("at-plus-inf" if x > 0 else "at-minus-inf")
+            elif not 1e-50 <= abs(x) <= 1e50:
+                where.add("at-an-extreme-magnitude")
+            else:
+                where.add("at-a-finite-point")
+    low = any(x == -INF and y != -INF for x, y in zip(a, b))
+    return n, (f"{n}-of-{len(a)}-sides-collapsed:" + "+".join(sorted(where)) if n else "no-side-collapsed") + (":some-lower-end-minus-inf" if low else "")
+
+
+def _sub_degenerate(sh, case):
+    """Rectangles (a, b] of (-inf, inf]^d, a <= b, with at least one SPECIAL side: collapsed (a_i == b_i: the rectangle is
+    empty, its volume is 0 whatever the copula) or with the lower end -inf.  Excluded: a vertex with all coordinates
+    infinite (every side has an infinite end)."""
+    from rpylib.model.levycopulamodel import margin, volume
+
+    cspec, d = case["copula"], case["dim"]
+    al = _letters(case["alphabet"], cspec)
+    cop = _make(cspec)
+    f = _F(cop)
+    fg = _gen_adapter(cop)
+    kind, ecls = _kind(cspec), _eta_cls(cspec) + _vk(cspec)
+    sf = _slack_factor(cspec, d, al)
+    m_opts = []
+    if case.get("margin_options"):
+        m_none = margin(cop, None, d)
+        m_full = margin(cop, list(range(d)), d)
+        m_opts = [("indices=None", lambda g: m_none(np.fromiter(g, dtype=float))), ("indices=all", lambda g: m_full(list(g)))]
+    n = len(al)
+    vals = {}
+    for idx in itertools.product(range(n), repeat=d):
+        if not all(math.isinf(al[i]) for i in idx):
+            vals[idx] = f(tuple(al[i] for i in idx))
+    sides = _sides(al)
+    special = [al[i] == al[k] or al[i] == -INF for i, k in sides]
+    firsts = list(range(len(sides))) if case.get("first") is None else [int(case["first"])]
+    cnt = 0
+    n_empty = 0
+    sig = 0.0
+    for k0 in firsts:
+        for rest in itertools.product(range(len(sides)), repeat=d - 1):
+            ks = (k0,) + rest
+            if not any(special[k] for k in ks):
+                continue  # a_i < b_i, a_i finite on every side: the lattice of the sub-check `volume`
+            a_idx = [sides[k][0] for k in ks]
+            b_idx = [sides[k][1] for k in ks]
+            a = [al[i] for i in a_idx]
+            b = [al[i] for i in b_idx]
+            if all(math.isinf(x) or math.isinf(y) for x, y in zip(a, b)):
+                sh.count("rectangles_excluded_vertex_all_infinite")
+                continue
+            mine, sabs = _iter_diff(vals, a_idx, b_idx)
+            lib = float(volume(fg, a, b))
+            cnt += 1
+            ncol, cc = _collapse_class(a, b)
+            rc = cc + ":" + _rect_class(a, b)
+            tol = 4 * 2 ** d * EPS * sabs
+            results = [("levycopulamodel.volume", lib), ("signed-sum", mine)]
+            for oname, fo in m_opts:
+                results.append((f"volume-through-margin-{oname}", float(volume(fo, a, b))))
+                cnt += 1
+            for rname, v in results:
+                if not math.isfinite(v):
+                    sh.violation(f"C11:degenerate:{kind}:d{d}:not-a-finite-number:{rname}:{ecls}:{rc}",
+                                 f"{cop!r}: volume of ({a}, {b}] = {v!r} ({rname})", {"a": a, "b": b, "route": rname, "value": v})
+                elif ncol:
+                    if not abs(v) <= tol:
+                        sh.violation(f"C11:degenerate:{kind}:d{d}:volume-of-an-empty-rectangle-not-0:{rname}:{ecls}:{rc}",
+                                     f"{cop!r}: ({a}, {b}] is empty (a_i == b_i on {ncol} side(s)) but its volume is {v!r} ({rname}; "
+                                     f"rounding bound {tol:.3g})", {"a": a, "b": b, "route": rname, "value": v, "bound": tol})
+                else:
+                    if abs(v - mine) > tol:
+                        sh.violation(f"C11:degenerate:{kind}:d{d}:library-volume-differs-from-signed-sum:{rname}:{ecls}:{rc}",
+                                     f"{cop!r}: volume over ({a}, {b}] = {v!r} ({rname}), signed sum of F over the vertices = {mine!r}",
+                                     {"a": a, "b": b, "route": rname, "value": v, "signed_sum": mine, "sum_abs_terms": sabs})
+                    if v < -sf * EPS * sabs:
+                        sh.violation(f"C11:degenerate:{kind}:d{d}:negative-volume:{rname}:{ecls}:{rc}",
+                                     f"{cop!r}: volume of ({a}, {b}] = {v!r} < 0 ({rname}; slack {sf * EPS * sabs:.3g})",
+                                     {"a": a, "b": b, "route": rname, "value": v, "slack": sf * EPS * sabs})
+            n_empty += 1 if ncol else 0
+            sig += lib if math.isfinite(lib) else 0.0
+            sh.cls(f"degenerate:d{d}:{cc}")
+    sh.count("evaluations", cnt)
+    sh.count(f"rectangles_empty_d{d}", n_empty)
+    sh.count(f"rectangles_lower_end_minus_inf_d{d}", cnt - n_empty if not m_opts else 0)
+    sh.outcome(("degenerate", _j(cspec), d, case["alphabet"], case.get("first"), cnt, n_empty, round(sig, 9)))
+    sh.cls(f"history:{_via_cls(cspec)}")
+    if cnt:
+        sh.nontriv()
+    if kind == "clayton" and case.get("first") is None and cspec["theta"] == 0.7 and cspec["eta"] == 0.3 and "via" not in cspec:
+        sh.sample({"sub": "degenerate", "copula": cspec, "dim": d, "alphabet": case["alphabet"], "rectangles": cnt, "empty": n_empty})
+
+
 def _sub_margin2(sh, case):
     from rpylib.model.levycopulamodel import margin, volume
 
@@ -788,7 +933,7 @@ def _sub_margin2(sh, case):
         u = [0.0, 0.0, 0.0]
         u[i], u[j], u[k] = al[idx[0]], al[idx[1]], letters3[k][idx[2]]
         vals[idx] = f(tuple(u))
-    pairs_idx = [(p, q) for p in range(n) for q in range(p + 1, n)]
+    pairs_idx = [(p, q) for p in range(n) for q in range(p, n)]  # p == q: collapsed side, the rectangle is empty
     cnt = 0
     sig = 0.0
     for s1 in pairs_idx:
@@ -802,6 +947,15 @@ def _sub_margin2(sh, case):
             lib = float(volume(lambda g: m2(list(g)), a, b))
             cnt += 1
             rc = _rect_class(a, b)
+            ncol, cc = _collapse_class(a, b)
+            if ncol:
+                rc = cc + ":" + rc
+                sh.count("rectangles_margin2_empty")
+                if not (abs(lib) <= 4 * 8 * EPS * sabs and mine == 0.0):
+                    sh.violation(f"C11:margin2:{kind}:d3:volume-of-an-empty-rectangle-not-0:{ecls}:{rc}",
+                                 f"{cop!r}: ({a}, {b}] is empty but the {[i, j]}-margin gives it the volume {lib!r} (signed sum {mine!r})",
+                                 {"a": a, "b": b, "pair": [i, j], "library": lib, "signed_sum": mine})
+                    continue
             if not (math.isfinite(lib) and math.isfinite(mine)):
                 sh.violation(f"C11:margin2:{kind}:d3:not-a-finite-number:{ecls}:{rc}",
                              f"{cop!r}: volume of the {[i, j]}-margin over ({a}, {b}] = {lib!r} (signed sum {mine!r})",
@@ -1336,7 +1490,11 @@ def _sub_args(sh, case):
 
     # -- volume operator: forms of the corners
     fg = _gen_adapter(cop)
-    for a, b in (([-1.0, 0.2], [0.2, INF]), ([-5.0, -1.0], [-1.0, 5.0]), ([-1.0, 0.0, 0.2], [1.0, 5.0, INF]), ([-5.0, -1.0, 0.0], [-1.0, 5.0, 1.0])):
+    for a, b in (([-1.0, 0.2], [0.2, INF]), ([-5.0, -1.0], [-1.0, 5.0]), ([-1.0, 0.0, 0.2], [1.0, 5.0, INF]), ([-5.0, -1.0, 0.0], [-1.0, 5.0, 1.0]),
+                 # empty rectangles (a_i == b_i on one, two, all sides) and a lower end -inf
+                 ([1.0, -5.0], [1.0, 5.0]), ([-1.0, 0.2], [5.0, 0.2]), ([-5.0, 1.0], [-5.0, 1.0]), ([-INF, 0.2], [-1.0, 5.0]),
+                 ([1.0, -5.0, 0.2], [1.0, 5.0, INF]), ([-1.0, 5.0, -5.0], [1.0, 5.0, -5.0]), ([1.0, -1.0, 5.0], [1.0, -1.0, 5.0]),
+                 ([-INF, -1.0, 1.0], [1.0, 5.0, 1.0])):
         fn = f"volume:d{len(a)}"
         ref = A.guarded(fn, lambda: volume(fg, a, b), a=a, b=b)
         A.n += 1
